@@ -319,7 +319,7 @@ def handlePfull (kindsS nlS : String) : String :=
   match (parseList kindsS).mapM RawTokenType.ofRust with
   | some kinds =>
     let nl := if nlS == "-" then [] else nlS.toList.map (· == '1')
-    match parseFileFull (kinds.zip nl) with
+    match parseFileMasked (kinds.zip nl) with
     | none => "model-none"
     | some o =>
       let pk := showList (o.kinds.map fun k => k.toTokenType.toRust)
